@@ -217,21 +217,22 @@ func (b bfact) key() string {
 	}
 	return fmt.Sprintf("[%d=%v]%s", b.g, b.gp, b.idx.key())
 }
+
 type bval struct {
 	v   atomID
 	idx lin
 }
 
 type lstate struct {
-	bf     []bfact
-	bv     []bval
-	f      []lfact
-	idx    map[string]bool
-	lo, hi map[atomID]int64
-	hasLo  map[atomID]bool
-	hasHi  map[atomID]bool
-	bounds bool
-	nf     *normForm
+	bf      []bfact
+	bv      []bval
+	f       []lfact
+	idx     map[string]bool
+	lo, hi  map[atomID]int64
+	hasLo   map[atomID]bool
+	hasHi   map[atomID]bool
+	bounds  bool
+	nf      *normForm
 	atomSet map[atomID]bool
 	lb      map[string][2]int64
 }
@@ -634,6 +635,7 @@ const maxFactWidth = 5
 // softRestrict: a restricted join keeps any candidate the previous state implies (instead of only its literal facts)
 var softRestrict bool
 var joinDebug, joinDumped bool
+
 // proveBudgetInit: search steps allowed per entailment query (joins ask very many, most of them failing;
 // obligations raise it)
 var proveBudgetInit = 90
